@@ -28,5 +28,5 @@ DELIVERABLES (all inside {wt}/_seed/ ; create that directory):
   1. patch.diff  — output of `git -C {wt} diff -- pony` (the change only; do not include _seed in it).
   2. demo.py     — a small standalone program, run as `cd <tree> && /venv/bin/python _seed/demo.py` (it must import pony from the current working directory: start it with `import sys, os; sys.path.insert(0, os.getcwd())`), that exits with status 0 and prints PASS on the UNCHANGED library and exits non-zero (prints FAIL with an explanation) WITH your change. It should check the behaviour the property talks about, at the public API where possible.
   3. meta.json   — {{"property": "{p['id']}", "summary": "<one line: what was changed>", "needs": "<what specific input/sequence/fault/configuration it needs in order to manifest>", "files": ["..."], "ran": ["<commands you ran and their outcome>"]}}
-Before finishing, VERIFY yourself: (1) with the change applied the suite result is unchanged; (2) demo.py fails with the change; (3) `git stash` (or reverse-apply the patch), confirm demo.py passes without the change, then re-apply so the worktree ends WITH the change applied and _seed/ present.
+Before finishing, VERIFY yourself: (1) with the change applied the suite result is unchanged; (2) demo.py fails with the change; (3) reverse-apply the patch (`git apply -R _seed/patch.diff`; do NOT use `git stash`: the stash is shared between all worktrees of the repository and other people work in theirs), confirm demo.py passes without the change, then re-apply it (`git apply _seed/patch.diff`) so the worktree ends WITH the change applied and _seed/ present.
 Keep the change minimal (a few lines). Do not edit tests. Do not commit. Finish by replying with the contents of meta.json and the patch.""")
